@@ -1,11 +1,11 @@
-INIT MCInitThorough
+INIT NearInit
 NEXT Next
 CONSTANTS Configs = {}
   CountBasedCheck = FALSE
   SkipEpochWithoutRow = FALSE
   LoadEveryEngine = FALSE
   LoadOnlyOwnTargets = FALSE
-  MatchWholeSecond = FALSE
+  MatchWholeSecond = TRUE
   DedupIgnoresSensor = FALSE
   CrashOnDuplicate = FALSE
   KeepDuplicates = FALSE
